@@ -202,6 +202,69 @@ pub fn run(tier: Tier) -> i32 {
         }
     });
 
+    // the operand faults of every mnemonic (one must-reject line per mnemonic and kind of departure
+    // from a legal operand tuple, from C04's enumeration), inserted into code-only programs
+    let n_per_mnemonic = AtomicU64::new(0);
+    {
+        use crate::checks::c04;
+        use crate::isa::Core;
+        let cases = c04::gen_cases(Tier::Quick, Core::Full);
+        let mut picked: BTreeMap<(String, &'static str), String> = BTreeMap::new();
+        for c in cases.iter() {
+            if c.uses_alias || c.cat == "legal" || crate::icase::is_relative(c.ic.mnem) {
+                continue;
+            }
+            if isa::encode(Core::Full, c.ic.mnem, &c.ic.ops).is_some() {
+                continue;
+            }
+            picked.entry((c.ic.mnem.to_string(), c.cat)).or_insert_with(|| c.text.clone());
+        }
+        // (lenient sibling forms of ld/st are not faults: leave those mnemonics' kind confusions out)
+        let faults: Vec<(String, &'static str, String)> = picked.into_iter().filter(|((m, cat), _)| !(["ld", "ldd", "st", "std"].contains(&m.as_str()) && (*cat == "kind" || *cat == "numeric"))).map(|((m, cat), t)| (m, cat, t)).collect();
+        let hosts: Vec<(&str, &str)> = usable.iter().filter(|(n, _)| ["arith", "one-register", "immediates"].contains(n)).cloned().collect();
+        let mut pw: Vec<(usize, usize, usize)> = vec![];
+        for (hi, (_, src)) in hosts.iter().enumerate() {
+            let nlines = src.lines().count();
+            let positions: Vec<usize> = if tier.thorough() { (0..=nlines).collect() } else { vec![0, nlines / 2, nlines] };
+            for pos in positions {
+                for fi in 0..faults.len() {
+                    pw.push((hi, pos, fi));
+                }
+            }
+        }
+        pw.par_iter().for_each(|(hi, pos, fi)| {
+            let (hname, src) = hosts[*hi];
+            let (mnem, cat, ftext) = &faults[*fi];
+            let src_lines: Vec<&str> = src.lines().collect();
+            let mut text = prefix.clone();
+            for l in &src_lines[..*pos] {
+                text.push_str(l);
+                text.push('\n');
+            }
+            let fault_line = SHIFT + pos + 1;
+            text.push_str("    ");
+            text.push_str(ftext);
+            text.push('\n');
+            for l in &src_lines[*pos..] {
+                text.push_str(l);
+                text.push('\n');
+            }
+            let o = sut::build_str(&text);
+            evals.fetch_add(1, Ordering::Relaxed);
+            n_per_mnemonic.fetch_add(1, Ordering::Relaxed);
+            let bad: Option<(&str, String)> = match &o {
+                Outcome::Err(e) if has_number_token(e, fault_line) => None,
+                Outcome::Err(e) => Some(("no-line", format!("the error does not name line {}: {}", fault_line, e))),
+                Outcome::Ok(_) => Some(("accepted", format!("the faulty line {} is accepted", fault_line))),
+                Outcome::Panic { .. } => None, // C16's business
+            };
+            if let Some((kind, what)) = bad {
+                rep.violation(&format!("C15/{}/operand-fault/mnem={}/departure={}", kind, mnem, cat), || format!("program '{}', `{}` inserted as line {}: {}", hname, ftext, fault_line, what), || {
+                    json!({"kind": "build_str", "source": text, "fault_line": fault_line, "expected": format!("err whose text contains the number {}", fault_line), "observed": o.to_json()})
+                });
+            }
+        });
+    }
     // faults inside the body of a macro that is called (once, and twice): the error names the body
     // line or the calling line
     let n_in_macro = AtomicU64::new(0);
@@ -499,11 +562,11 @@ pub fn run(tier: Tier) -> i32 {
         "errors_naming_the_line": named.load(Ordering::Relaxed),
         "distinct_error_shapes": distinct_err.lock().unwrap().len(),
         "message_placements": n_msg.load(Ordering::Relaxed),
+        "operand_faults_of_every_mnemonic_programs": n_per_mnemonic.load(Ordering::Relaxed),
         "message_placements_in_the_elif_skeleton": n_msg_b.load(Ordering::Relaxed),
         "faults_inside_a_called_macro_body": n_in_macro.load(Ordering::Relaxed),
         "caps_hit": [],
         "trusted_base": ["harness lexer for liveness/segment context", "decimal token match"],
     }));
-    let _ = tier;
     rep.finish(coverage)
 }
